@@ -44,6 +44,12 @@ MUTANTS = {
          "        // assign a handle in overlayfs and open it\n        let (_l, h, _) = node.open(ctx, flags as u32, fuse_flags)?;\n        if !readonly {\n            // copy up to upper layer\n            self.copy_node_up(ctx, Arc::clone(&node))?;\n        }\n"),
         # C10.open.lower_flags in copy_regfile_up
         ('copy-up-opens-lower-for-write', M, "        let (h, _, _) = lower_layer.open(ctx, lower_inode, libc::O_RDONLY as u32, 0)?;", "        let (h, _, _) = lower_layer.open(ctx, lower_inode, libc::O_RDWR as u32, 0)?;"),
+        # C10.layer.is_opaque.names (+ C10.layer.is_opaque): red-team seed C10-b
+        ('privileged-opaque-marker-renamed', L, 'pub const PRIVILEGED_OPAQUE_XATTR: &str = "trusted.overlay.opaque";', 'pub const PRIVILEGED_OPAQUE_XATTR: &str = "trusted.overlayfs.opaque";'),
+        # C10.layer.is_opaque.names + C10.set_opaque.result + ovl_layer.set_opaque.cap
+        ('own-opaque-marker-renamed', L, 'pub const OPAQUE_XATTR: &str = "user.fuseoverlayfs.opaque";', 'pub const OPAQUE_XATTR: &str = "user.fuseoverlay.opaque";'),
+        # C10.layer.is_opaque.len
+        ('opaque-len-zero', L, 'pub const OPAQUE_XATTR_LEN: u32 = 16;', 'pub const OPAQUE_XATTR_LEN: u32 = 0;'),
         # C10.do_mknod.no_upper
         ('mknod-without-upper-check', M, "        rdev: u32,\n        umask: u32,\n    ) -> Result<()> {\n        if self.upper_layer.is_none() {\n            return Err(Error::from_raw_os_error(libc::EROFS));\n        }\n", "        rdev: u32,\n        umask: u32,\n    ) -> Result<()> {\n"),
     ],
@@ -60,6 +66,8 @@ MUTANTS = {
         ('copy-up-drops-mode', M, "            mode: st.st_mode,\n            umask: 0,", "            mode: 0o644,\n            umask: 0,"),
         # ovl_ops.copy_symlink_up.cap ([C11.copy_symlink_up.cap])
         ('copy-symlink-loses-target', M, "parent_real_inode.symlink(ctx, path, node.name.as_str())", "parent_real_inode.symlink(ctx, node.name.as_str(), path)"),
+        # ovl_ops.copy_symlink_up.cap ([C11.copy_symlink_up.cap]): red-team seed C11-b (two edits; as one mutant: the lossy conversion)
+        ('copy-symlink-lossy-target', M, "        let path =\n            std::str::from_utf8(&path).map_err(|_| Error::from_raw_os_error(libc::EINVAL))?;\n", "        let path = String::from_utf8_lossy(&path);\n        let path: &str = &path;\n"),
         # ovl_ops.create_upper_dir.cap ([C11.create_upper_dir.cap])
         ('upper-dir-mode-dropped', M, "None => parent_ri.mkdir(ctx, self.name.as_str(), st.st_mode, 0)?,", "None => parent_ri.mkdir(ctx, self.name.as_str(), 0o755, 0)?,"),
         # ovl_ops.copy_regfile_up.all_bytes
